@@ -94,6 +94,7 @@ def main(tier, rep):
     from drivers import connmodel
     connmodel.design_and_replay(rep, tier, PROP, relevant, kinds=["pooled", "hashpooled"], pooled=True, idle=1)
     npool = pool_level(rep, tier)
+    rep.set("pool_model_behaviours_replayed", pool_model(rep, tier))
     rep.set("pool_level_histories", npool)
     rep.set("evaluations", len(traces))
     rep.set("distinct_nontrivial", len({(t["h"]["kind"], t["cfg"]["idle"], t["cfg"]["max_pool"], t["cfg"]["ignore_exc"]) +
@@ -106,6 +107,112 @@ def main(tier, rep):
         rep.sample({"cfg": {k: t["cfg"][k] for k in ("kind", "idle", "max_pool", "ignore_exc")}, "program": t["steps"]})
     rep.assumptions += ["sequential use: one call at a time (concurrent use is C08)",
                         "connection identity = socket identity at the socket_module seam"]
+
+
+def pool_model(rep, tier):
+    """spec/PoolSeq.tla: the as-coded sequential pool with its idle clock, carrying the PoolRule monitor.  TLC explores every
+    sequence up to Depth (state-deduplicated), checks the contract and the books, and exports a state-covering set of behaviours
+    with the events it predicts; each is replayed on the real ObjectPool: TLC validates the recorded trace, and a trace that
+    differs from the prediction although the contract accepts it is MODEL-DRIFT.  With Lifo = TRUE (a seeded defect) the model
+    must violate the contract."""
+    from pymemcache import pool as P
+    from lib import tlc
+    depth = 7 if tier == "quick" else 9
+
+    def cfg(ms, idle, lifo=False, export=True):
+        return (f"SPECIFICATION Spec\nCONSTANTS\n  MaxSize = {ms}\n  Idle = {idle}\n  Depth = {depth}\n  MaxObj = {ms + 3}\n"
+                f"  Export = {'TRUE' if export else 'FALSE'}\n  Lifo = {'TRUE' if lifo else 'FALSE'}\nVIEW view\nINVARIANT MonitorOK\n"
+                "INVARIANT Books\nCHECK_DEADLOCK FALSE\n")
+    r = tlc.run("PoolSeq", cfg_text=cfg(2, 5, lifo=True, export=False), workers=8, timeout=900)
+    if r.error:
+        raise common.MachineryError(r.error)
+    if r.ok:
+        raise common.MachineryError("vacuous pool model: the LIFO variant satisfies the contract")
+    traces, predicted = [], []
+    for ms, idle in (((2, 5), (3, 5), (2, 0)) if tier == "quick" else ((2, 5), (3, 5), (1, 5), (2, 0))):
+        r = tlc.run("PoolSeq", cfg_text=cfg(ms, idle), workers=16, timeout=3000)
+        if r.error:
+            raise common.MachineryError(r.error)
+        if not r.ok:
+            rep.violation(f"C09/model/PoolSeq/max{ms}-idle{idle}/" + ",".join(r.invariants_violated),
+                          "as-coded sequential pool model violates the contract", tlc.first_error_trace(r))
+        rep.add("states", r.distinct)
+        rep.add("transitions", r.generated)
+        rows = r.json_lines("EXP")
+        rep.add("pool_model_behaviours_exported", len(rows))
+        for row in rows:
+            ev = run_pool_seq(P, row["seq"], ms, idle)
+            traces.append({"h": {"max": ms, "idle": idle, "maxrej": 3}, "ev": ev, "seq": row["seq"]})
+            predicted.append(row["ev"])
+    if len(traces) < 500:
+        raise common.MachineryError("vacuous export from PoolSeq: %d behaviours" % len(traces))
+    acc, rej, st, _ = tlc.validate_traces("PoolTrace", [{"h": t["h"], "ev": t["ev"]} for t in traces], chunk=5000)
+    rep.add("traces_validated_against_impl", len(traces))
+    rep.add("trace_states", st)
+    for i, lst in sorted(rej.items()):
+        t = traces[i]
+        pos, clauses = lst[0]
+        cl = ",".join(sorted(x.strip().strip('"') for x in clauses.strip("{}").split(",")))
+        rep.violation(f"C09/pool-level/{cl}", f"ObjectPool(max={t['h']['max']}, idle_timeout={t['h']['idle']}) model behaviour {t['seq']}: "
+                      f"event {pos} {t['ev'][pos - 1]} rejected: {cl}", {"seq": t["seq"], "header": t["h"], "events": t["ev"]})
+    for i, t in enumerate(traces):
+        if i in acc and t["ev"] != predicted[i]:
+            rep.model_drift("the real ObjectPool's trace differs from the as-coded model's prediction but satisfies the contract",
+                            {"seq": t["seq"], "header": t["h"], "events": t["ev"][:40], "model": predicted[i][:40]})
+    return len(traces)
+
+
+def run_pool_seq(P, seq, maxsize, idle):
+    """one sequence over {G, R<i>, D<i>, T<d>} on a fresh real ObjectPool; returns the recorded events"""
+    vclock.set_now(9_000_000)
+    ids = {}
+    ev = []
+
+    class Obj:
+        pass
+
+    def oid(o):
+        return ids.setdefault(id(o), len(ids) + 1)
+    keep = []
+
+    def creator():
+        o = Obj()
+        keep.append(o)
+        ev.append({"e": "create", "t": 1, "o": oid(o)})
+        return o
+    pool = P.ObjectPool(creator, after_remove=lambda o: ev.append({"e": "close", "t": 1, "o": oid(o)}),
+                        max_size=maxsize, idle_timeout=idle)
+    mine = []
+
+    def snap():
+        ev.append({"e": "snap", "used": [oid(o) for o in pool.used], "free": [oid(o) for o in pool.free]})
+    for a in seq:
+        if a == "G":
+            ev.append({"e": "call", "t": 1, "m": "get", "o": 0})
+            try:
+                o = pool.get()
+            except RuntimeError as e:
+                ev.append({"e": "raise", "t": 1, "m": "get", "x": "capacity" if "Too many" in str(e) else "other"})
+                snap()
+                continue
+            mine.append(o)
+            snap()
+            ev.append({"e": "ret", "t": 1, "m": "get", "o": oid(o)})
+        elif a[0] in "RD":
+            i = int(a[1])
+            if i >= len(mine):
+                continue
+            o = mine.pop(i)
+            m = "release" if a[0] == "R" else "destroy"
+            ev.append({"e": "call", "t": 1, "m": m, "o": oid(o)})
+            getattr(pool, m)(o)
+            snap()
+            ev.append({"e": "ret", "t": 1, "m": m, "o": oid(o)})
+        else:
+            d = int(a[1])
+            vclock.advance(d)
+            ev.append({"e": "tick", "d": d})
+    return ev
 
 
 def pool_level(rep, tier):
@@ -134,59 +241,12 @@ def pool_level(rep, tier):
                     held -= 1
             if not ok or seq[0] != "G" or seq.count("G") < 2 or not any(a[0] == "T" for a in seq):
                 continue
-            vclock.set_now(9_000_000)
-            ids = {}
-            ev = []
-
-            class Obj:
-                pass
-
-            def oid(o):
-                return ids.setdefault(id(o), len(ids) + 1)
-            keep = []
-
-            def creator():
-                o = Obj()
-                keep.append(o)
-                ev.append({"e": "create", "t": 1, "o": oid(o)})
-                return o
-            pool = P.ObjectPool(creator, after_remove=lambda o: ev.append({"e": "close", "t": 1, "o": oid(o)}),
-                                max_size=maxsize, idle_timeout=idle)
-            mine = []
-
-            def snap():
-                ev.append({"e": "snap", "used": [oid(o) for o in pool.used], "free": [oid(o) for o in pool.free]})
-            for a in seq:
-                if a == "G":
-                    ev.append({"e": "call", "t": 1, "m": "get", "o": 0})
-                    try:
-                        o = pool.get()
-                    except RuntimeError as e:
-                        ev.append({"e": "raise", "t": 1, "m": "get", "x": "capacity" if "Too many" in str(e) else "other"})
-                        snap()
-                        continue
-                    mine.append(o)
-                    snap()
-                    ev.append({"e": "ret", "t": 1, "m": "get", "o": oid(o)})
-                elif a[0] in "RD":
-                    i = int(a[1])
-                    if i >= len(mine):
-                        continue
-                    o = mine.pop(i)
-                    m = "release" if a[0] == "R" else "destroy"
-                    ev.append({"e": "call", "t": 1, "m": m, "o": oid(o)})
-                    getattr(pool, m)(o)
-                    snap()
-                    ev.append({"e": "ret", "t": 1, "m": m, "o": oid(o)})
-                else:
-                    d = int(a[1])
-                    vclock.advance(d)
-                    ev.append({"e": "tick", "d": d})
+            ev = run_pool_seq(P, seq, maxsize, idle)
             traces.append({"h": {"max": maxsize, "idle": idle, "maxrej": 3}, "ev": ev, "seq": seq})
     import random
-    if tier == "quick" and len(traces) > 5000:
+    if tier == "quick" and len(traces) > 2000:
         random.Random(common.seed()).shuffle(traces)
-        traces = traces[:5000]
+        traces = traces[:2000]
     acc, rej, st, _ = tlc.validate_traces("PoolTrace", [{"h": t["h"], "ev": t["ev"]} for t in traces], chunk=5000)
     rep.add("traces_validated_against_impl", len(traces))
     rep.add("trace_states", st)
